@@ -180,6 +180,8 @@ def o4(W, ob):
     ob.check(ok, 'SyncTestSession::add_local_input|handle-range', 'handles >= num_players are rejected', 'SyncTestSession::add_local_input does not reject handle >= num_players', where(al))
 
 
+from . import helpers
+
 OBLIGATIONS = [
     ('C13.O1', 'builder boundary', 'start_synctest_session builds a session exactly under check_dist < max_prediction & !sparse_saving, InvalidRequest otherwise.', o1),
     ('C13.O2', 'compare, then roll back, every call', 'under exactly check_distance > 0 & current > check_distance the comparison over [current - cd, current] precedes '
@@ -188,4 +190,5 @@ OBLIGATIONS = [
     ('C13.O4', 'all inputs confirmed', 'every handle < num_players must be present and is passed to add_local_input before the fetch; set_last_confirmed_frame(current - cd, false).', o4),
     ('C13.O5', 'save / step / load structure (= C02.O8, C02.O4, C01.O2)', 'see C02.O8', c02.o8),
     ('C13.O6', 'resimulation loop (= C02.O4, C02.O6)', 'see C02.O4', c02.o4),
+    ('C13.H', 'helpers the rules above rely on', 'the bodies of the helpers named by this property\'s rules compute what the rules assume (get_cell, cell_accessors, saved_state_by_frame); see rules/helpers.py', helpers.bundle('get_cell', 'cell_accessors', 'saved_state_by_frame')),
 ]
